@@ -35,9 +35,12 @@ PROP = dict(
         "rejects a node record whose syllable try_from rejects, so that the unwrap() in entries() stays unreachable. "
         "The traversal theorems therefore carry the hypothesis `validate t = true` — not an assumption about the file but "
         "the check the code performs (modelled, in correspondence); validation_needed proves the statements false without it",
-        "known finding F39 (dictionary-file form): a hand-made or corrupt dictionary FILE with an entry under the empty key makes "
-        "every conversion abort (oracle only: the conversion engine is not part of this model). The tools no longer produce such a "
-        "file: chewing-cli init-database rejects a source line without syllables (C20 F27 no-syllables, fixed) and the uhash import "
+        "F39 (dictionary-file form: a hand-made or corrupt dictionary FILE with an entry under the empty key made every conversion "
+        "abort) is repaired at the engine (870202b: find_best_phrase returns None for an empty range; C03 empty_key_harmless). The "
+        "conversion engine is not part of this model: that a context over such a file is created, converts and commits is observed by "
+        "the oracle (witness-F39-empty-key-entry placed as user, system and drop-in dictionary; stats ctx_runs_over_empty_key_file = "
+        "ctx_ok_over_empty_key_file); no known class remains, any abort is reported as new. The tools do not produce such a file "
+        "either: chewing-cli init-database rejects a source line without syllables (C20 F27 no-syllables, fixed) and the uhash import "
         "skips records with syllable count 0",
         "F40 (a stored phrase frequency within reach of u32::MAX aborted the first commit that learns the phrase: add with overflow in "
         "estimate.rs) is repaired in the repository (saturating_add); stored_freq_never_overflows is stated over C08's estimate model, which "
@@ -65,12 +68,15 @@ MANIFEST = dict(
          "validation they loop for every fuel, multiply threads, panic at both sites / at the unwrap. C11's "
          "`validate_write`: every file TrieBuilder::write produces passes the validation. Tie: the model must predict the real outcome "
          "(accept/reject of Trie::new on every corrupted file; result, panic or hang of every traversal); an independent oracle "
-         "reports any panic, abort, watchdog timeout, result larger than the file, or an accepted index that is not a breadth-first tree or has a node syllable that is not a syllable code.",
+         "reports any panic, abort, watchdog timeout, result larger than the file, or an accepted index that is not a breadth-first tree or has a node syllable that is not a syllable code (every failure is class new: no known class remains).",
     note="F14/F15/F39(legacy)/F26, F40 and F16/F17 were repaired by fix: commits and are proved absent in the model of the repaired "
-         "code (witnesses kept as theorems about the pre-fix decoder / the unvalidated walk). Still recorded: F39 (dictionary-file "
-         "form) — a hand-made or corrupt file (e.g. one written directly through TrieBuilder::insert(&[], ..)) holding an entry under the "
-         "empty key makes every conversion abort; it is a valid file (C11 proves it reads back), so the repair belongs to the conversion "
-         "engine (C03's NoEmptyKey hypothesis), not to the validation. The dictionary compiler no longer produces one: chewing-cli "
-         "init-database reports a source line without syllables (C20, F27 no-syllables fixed). A rejected user dictionary makes chewing_new2 return NULL and is left untouched on disk (never overwritten).",
+         "code (witnesses kept as theorems about the pre-fix decoder / the unvalidated walk). F39 (dictionary-file form) — a hand-made "
+         "or corrupt file (e.g. one written directly through TrieBuilder::insert(&[], ..)) holding an entry under the empty key made "
+         "every conversion abort; it is a valid file (C11 proves it reads back), so the repair belongs to the conversion engine, not to "
+         "the validation — is FIXED there by commit 870202b (find_best_phrase returns None for an empty range; proved harmless in C03, "
+         "empty_key_harmless); here the witness file stays in the corpus and a context over it must be created, convert and commit "
+         "(oracle, class new on any abort). The dictionary compiler does not produce such a file either: chewing-cli init-database "
+         "reports a source line without syllables (C20, F27 no-syllables fixed). A rejected user dictionary makes chewing_new2 return "
+         "NULL and is left untouched on disk (never overwritten).",
     technique="Lean 4 proof (induction over records/lines/threads, potential-function termination argument with subtree-size weights, BFS frontier invariant) + systematic model-implementation correspondence with watchdog child processes",
 )
